@@ -10,6 +10,7 @@ from .values import OutsideSubset
 
 VERIF = api.VERIF
 PROP_MODULES = {
+    "C02": ["contracts.c02", "contracts.c02_bounded", "contracts.c15"],
     "C03": ["contracts.c03", "contracts.c03_bounded"],
     "C04": ["contracts.c04", "contracts.c05"],
     "C05": ["contracts.c05", "contracts.c05_bounded"],
